@@ -64,7 +64,7 @@ for pf in sorted(glob.glob(os.path.join(d, '*.diff'))):
     follow = set()
     for u, v in res['units'].items():
         if v['status'] == 'errors': follow.update(p for p in M.unit_props([x for x in M.load_units() if x.name == u][0]) if p in props)
-    if touched & KFILES: follow.update(p for p in ('C07', 'C12') if p in props)
+    if touched & KFILES and not os.environ.get('BENIGN_NO_KANI'): follow.update(p for p in ('C07', 'C12') if p in props)
     for p in sorted(follow):
         _, e, l = run_prop(w, p); res['checks'][p] = {'exit': e, 'lines': l}
     results[name] = res
